@@ -29,9 +29,9 @@ def sh(cmd, cwd):
 
 def imp():
     # deliveries: round 1 /tmp/neutral/<Cxx>-out -> n1..n3; round 2 -out2 -> n4..n6; round 3 -out3 -> n7..n9;
-    # round 4 /tmp/neutral4/<Cxx>-out -> n10..n12
+    # round 4 /tmp/neutral4/<Cxx>-out -> n10..n12; round 5 /tmp/neutral5/<Cxx>-out -> n13..n15
     for prop in ALL:
-        for base, off in ((f"/tmp/neutral/{prop}-out", 0), (f"/tmp/neutral/{prop}-out2", 3), (f"/tmp/neutral/{prop}-out3", 6), (f"/tmp/neutral4/{prop}-out", 9)):
+        for base, off in ((f"/tmp/neutral/{prop}-out", 0), (f"/tmp/neutral/{prop}-out2", 3), (f"/tmp/neutral/{prop}-out3", 6), (f"/tmp/neutral4/{prop}-out", 9), (f"/tmp/neutral5/{prop}-out", 12)):
             if not os.path.isdir(base):
                 continue
             for n in sorted(os.listdir(base)):
